@@ -38,8 +38,9 @@ for (tag, k), c in sorted(conf.items()):
     meta["check_runs"] = ["tools/try_seed.sh (./check %s quick against /repo main + patch): exit %d; %s" % (p, rc, v) for p, rc, v in runs]
     if runs:
         meta["detected"] = runs[-1][1] == 1
-    for key in ("strengthening",):
-        if key in old: meta[key] = old[key]
+    notes = json.load(open("/verif/seeded/notes.json")) if os.path.exists("/verif/seeded/notes.json") else {}
+    if os.path.basename(dst) in notes:
+        meta["strengthening"] = notes[os.path.basename(dst)]
     json.dump(meta, open(dst + "/meta.json", "w"), indent=1, ensure_ascii=False)
     n += 1
 print("kept", n, "seeds")
